@@ -164,6 +164,10 @@ func (c *Channel) Deliver(out, x []byte) ([]byte, error) {
 				}
 			}
 			if isApp {
+				if s == c.sessions[1].Session {
+					// authenticated traffic through the current session keeps it alive
+					c.lastReceived = now
+				}
 				appData = out
 				return nil, nil
 			}
